@@ -103,8 +103,17 @@ func (p *Printer) printAccrual(a directives.Accrual) error {
 }
 
 func (p *Printer) printPosting(t directives.Booking) error {
-	_, err := fmt.Fprintf(p, "%-*s %-*s %10s %s", p.padding, t.Credit.Extract(), p.padding, t.Debit.Extract(), t.Quantity.Extract(), t.Commodity.Extract())
+	_, err := fmt.Fprintf(p, "%s %s %10s %s", padRight(t.Credit.Extract(), p.padding), padRight(t.Debit.Extract(), p.padding), t.Quantity.Extract(), t.Commodity.Extract())
 	return err
+}
+
+// padRight appends blanks to s until it is n runes wide (a width verb such
+// as %-*s is rejected by fmt when the width exceeds 1e6).
+func padRight(s string, n int) string {
+	if l := utf8.RuneCountInString(s); l < n {
+		return s + strings.Repeat(" ", n-l)
+	}
+	return s
 }
 
 func (p *Printer) printOpen(o directives.Open) error {
